@@ -46,6 +46,14 @@ class JsEval:
         return out
 
     def run(self, src):
+        # a source text that starts with `{` is a block statement (this is how `{{ expr }}` templates reach the
+        # script engine: two nested blocks whose completion value is the value of expr)
+        st = src.strip()
+        while st.startswith("{") and st.endswith("}"):
+            st = st[1:-1].strip()
+        src = st if st != src.strip() else src
+        if src.strip() == "":
+            return jnull()
         self.t = self.tokenize(src)
         self.i = 0
         # script form
